@@ -256,3 +256,52 @@ func enclosingHelper(info *types.Info, helpers map[*types.Func][2]int, name stri
 func typeutilCallee(info *types.Info, call *ast.CallExpr) types.Object {
 	return typeutil.Callee(info, call)
 }
+
+// c18ExponentSigns (R14): the number scanner of path data treats the two signs alike after an exponent mark
+// (number ::= … ("e"|"E") ("+"|"-")? digits).  In consumeNumber the byte comparisons with '-' and with '+' lead to
+// the same block: the one that looks at the previous byte for e/E.
+func c18ExponentSigns(c *core.Check) {
+	p := c.Prog
+	r := c.Rule("R14", "both exponent signs: in svg.consumeNumber the comparisons of the current byte with '-' and with '+' branch to the same block, the one that tests the previous byte for an exponent mark", 1)
+	fn := p.Fn("svg", "consumeNumber")
+	if fn == nil {
+		r.Anchor("svg.consumeNumber")
+		return
+	}
+	target := map[int64]*ssa.BasicBlock{}
+	for _, b := range fn.Blocks {
+		if len(b.Instrs) == 0 {
+			continue
+		}
+		ifi, ok := b.Instrs[len(b.Instrs)-1].(*ssa.If)
+		if !ok {
+			continue
+		}
+		bo, ok := ifi.Cond.(*ssa.BinOp)
+		if !ok || bo.Op != token.EQL {
+			continue
+		}
+		if k, ok := core.ConstInt(bo.Y); ok && (k == '-' || k == '+') {
+			target[k] = b.Succs[0]
+		}
+	}
+	key := "svg.consumeNumber | sign after an exponent mark"
+	if target['-'] == nil {
+		r.Unknown(key, p.Pos(fn.Pos()), "no comparison of the current byte with '-'")
+		return
+	}
+	// the minus branch looks at the previous byte for 'e'
+	looksBack := false
+	for _, in := range target['-'].Instrs {
+		if bo, ok := in.(*ssa.BinOp); ok && bo.Op == token.EQL {
+			if k, ok := core.ConstInt(bo.Y); ok && (k == 'e' || k == 'E') {
+				looksBack = true
+			}
+		}
+	}
+	if !looksBack {
+		r.Unknown(key, p.Pos(fn.Pos()), "the '-' branch does not test the previous byte for e/E")
+		return
+	}
+	r.Cond(target['+'] == target['-'], key, p.Pos(target['-'].Instrs[0].Pos()), "'+' and '-' take the same branch", "'+' does not take the branch of '-': `1e+1` ends at the exponent mark, the number `1e` does not parse and the whole image is refused")
+}
